@@ -276,11 +276,13 @@ def step (st : St) (tok : List String) (_line : String) (impl : Option String) :
   | ["ctl", raw] => stepCtl st raw impl
   | ["tick"] => (st, predict "main-loop-tick" [] ++ echoTail impl, judgeAt "main-loop-tick" impl)
   | ["rt", "stall"] =>
-    -- one silent client ahead of a well-behaved one, on each accept loop; the expectation follows the
-    -- read-timeout flags regenerated from the source (`Escape.secondClientServed`)
-    let ctl2 := if secondClientServed controlReadTimeout then "OK_PING" else "timeout"
-    let tr2 := if secondClientServed transportPeerIdTimeout then "acked" else "timeout"
-    let model := s!"ok ctl-second={ctl2} ctl-after=OK_PING tr-second={tr2} tr-after=acked"
+    -- one stalling client ahead of a well-behaved one, on each accept loop; the expectation follows the
+    -- timeout flags regenerated from the source (`Escape.servedBehindSilent` / `servedBehindDeaf`)
+    let ctl2 := if servedBehindSilent controlReadTimeout then "OK_PING" else "timeout"
+    let ctlw := if servedBehindDeaf controlWriteTimeout then "OK_PING" else "timeout"
+    let tr2 := if servedBehindSilent transportPeerIdTimeout then "acked" else "timeout"
+    let tmo := (impl.bind (field · "ctl-timeout")).getD "?"
+    let model := s!"ok ctl-timeout={tmo} ctl-second={ctl2} ctl-wstall={ctlw} ctl-after=OK_PING tr-second={tr2} tr-after=acked"
     let verdict := match impl with
       | none => "ok"
       | some l =>
@@ -288,9 +290,11 @@ def step (st : St) (tok : List String) (_line : String) (impl : Option String) :
         else if (field l "tr-second") != some "acked" then
           "viol:stops-serving-transport:a silent inbound connection keeps the transport accept thread from the next peer"
         else if (field l "ctl-after") != some "OK_PING" || (field l "tr-after") != some "acked" then
-          "viol:stops-serving-after-release:an accept loop does not recover after the silent client left"
+          "viol:stops-serving-after-release:an accept loop does not recover after the stalling client left"
         else if (field l "ctl-second") != some "OK_PING" then
           "viol:stops-serving-control:a silent control client keeps the control accept thread from the next client"
+        else if (field l "ctl-wstall") != some "OK_PING" then
+          "viol:stops-serving-control:a control client that never reads its answer keeps the control accept thread from the next client"
         else "ok"
     (st, model, verdict)
   | ["rt", _] =>
